@@ -66,7 +66,18 @@ const (
 
 var validStr = []string{"a", "b/c", "世界", "", "x y z", "\U0001F600k", "tenletters"}
 
-func vstr(rng *rand.Rand) string { return validStr[rng.Intn(len(validStr))] }
+// vstrOverride, when set, is used for every generated string (sweep over the special code points)
+var vstrOverride string
+
+func vstr(rng *rand.Rand) string {
+	if vstrOverride != "" {
+		return vstrOverride
+	}
+	if rng.Intn(4) == 0 {
+		return specialValid[rng.Intn(len(specialValid))]
+	}
+	return validStr[rng.Intn(len(validStr))]
+}
 
 // genRefProp returns property id with a valid value.
 func genRefProp(rng *rand.Rand, id byte) refProp {
@@ -300,6 +311,9 @@ func genRefPacket(rng *rand.Rand, ty byte, v byte) *refPacket {
 			p.flags |= 8
 		}
 		topic := []string{"a", "a/b", "世界/x", "t", "$SYS/y"}[rng.Intn(5)]
+		if vstrOverride != "" {
+			topic = vstrOverride
+		}
 		p.props = genRefProps(rng, xPublish, v)
 		if v == 5 && rng.Intn(6) == 0 {
 			hasAlias := false
@@ -342,7 +356,11 @@ func genRefPacket(rng *rand.Rand, ty byte, v byte) *refPacket {
 			if v == 5 {
 				o |= byte(rng.Intn(2))<<2 | byte(rng.Intn(2))<<3 | byte(rng.Intn(3))<<4
 			}
-			p.post = cat(p.post, refStr([]string{"a/#", "+/b", "t", "$share/g/x", "世/+"}[rng.Intn(5)]), []byte{o})
+			flt := []string{"a/#", "+/b", "t", "$share/g/x", "世/+"}[rng.Intn(5)]
+			if vstrOverride != "" {
+				flt = vstrOverride
+			}
+			p.post = cat(p.post, refStr(flt), []byte{o})
 		}
 	case 10:
 		p.flags = 2
@@ -350,7 +368,11 @@ func genRefPacket(rng *rand.Rand, ty byte, v byte) *refPacket {
 		p.props = genRefProps(rng, xUnsubscribe, v)
 		n := 1 + rng.Intn(3)
 		for i := 0; i < n; i++ {
-			p.post = cat(p.post, refStr([]string{"a/#", "+/b", "t", "世/+"}[rng.Intn(4)]))
+			flt := []string{"a/#", "+/b", "t", "世/+"}[rng.Intn(4)]
+			if vstrOverride != "" {
+				flt = vstrOverride
+			}
+			p.post = cat(p.post, refStr(flt))
 		}
 	case 12:
 	case 14:
@@ -508,6 +530,21 @@ func engCodecEnc(seed int64, tier string, _ []string, out *sx.Out) {
 		}
 		rec(0, nil)
 	}
+
+	// (ii') every special (valid) code point in every string field of every client packet type
+	for _, sp := range specialValid {
+		vstrOverride = sp
+		for _, ty := range clientTypes {
+			for k := 0; k < 6; k++ {
+				v := []byte{4, 5, 5}[k%3]
+				if ty == 15 {
+					v = 5
+				}
+				genRefPacket(rng, ty, v).emitAll(out, rng, v, 2)
+			}
+		}
+	}
+	vstrOverride = ""
 
 	// (iii) random packets, all versions, random property sets, permutations, all forms;
 	// a share of server-to-client packets for the correspondence
